@@ -780,6 +780,33 @@ pub fn query<A: HC>(q: &str, t: &mut Toks) -> R<String> {
                     _ => vec![],
                 })
             }
+            if ad == "rev" || ad == "len" {
+                // optional capabilities (DoubleEndedIterator / ExactSizeIterator) of the four slice iterators, probed at their
+                // concrete types (probe.rs); the k-mer iterator is handled in kmer.rs
+                macro_rules! go {
+                    ($it:expr, $show:expr) => {{
+                        let mut it = $it;
+                        for _ in 0..arg {
+                            let _ = it.next();
+                        }
+                        if ad == "len" {
+                            crate::probe_len!(it).to_string()
+                        } else {
+                            $show(crate::probe_rev!(it))
+                        }
+                    }};
+                }
+                return eval_s::<A, _>(&s, &mut |x| {
+                    Ok(match kind.as_str() {
+                        "windows" => go!(x.windows(w), |v: Vec<&SeqSlice<A>>| slices(v.into_iter())),
+                        "chunks" => go!(x.chunks(w), |v: Vec<&SeqSlice<A>>| slices(v.into_iter())),
+                        "iter" => go!(x.iter(), |v: Vec<A>| codes(v.into_iter())),
+                        "reviter" => go!(x.rev_iter(), |v: Vec<A>| codes(v.into_iter())),
+                        "kmers" => return A::kmers_adapt(w, &ad, arg, x),
+                        _ => return Err(Fail::BadOp("adapt kind".into())),
+                    })
+                });
+            }
             if ad == "collectseq" {
                 // collect what is left of a partially consumed symbol iterator into a new sequence
                 return eval_s::<A, _>(&s, &mut |x| {
